@@ -255,7 +255,7 @@ def outcome_str(e):
     return '%s/%s' % (o['e']['exc'], o['e']['name'])
 
 
-def judge_cases(rep, cases, deviations_open, what='scenario', attribute=None):
+def judge_cases(rep, cases, deviations_open, what='scenario', attribute=None, side_clauses=None):
     """Validate cases against the normative specification; re-judge rejected ones against the
     specification with each open known-finding deviation; classify."""
     if not cases:
@@ -323,6 +323,12 @@ def judge_cases(rep, cases, deviations_open, what='scenario', attribute=None):
                 continue
             l = v.get('l', 0)
             obs = c['events'][l - 1] if 0 < l <= len(c['events']) else None
+            side = [k for pre, k in (side_clauses or {}).items() if str(v.get('why', '')).startswith(pre)]
+            if side:
+                # a clause of the specification that is not part of this check's property (reported, not alarmed)
+                rep.notes.setdefault(side[0], []).append({'calls': [cl['src'] for cl in c['calls']][:8], 'clause': v.get('why'), 'at_event': l})
+                rep.notes[side[0]] = rep.notes[side[0]][:10]
+                continue
             rep.violation('%s rejected by the specification at event %d: %s; calls %r' %
                           (what, l, v.get('why'), [(cl['src'], cl['max']) for cl in c['calls']]),
                           {'case': slim(c), 'at_event': l, 'clause': v.get('why'), 'observed_event': obs,
